@@ -6,6 +6,11 @@ two update_record implementations must drop the row's old key on every path on w
 changed (TwoWayMap.insert restores the old mapping when the new key is unhashable), report the
 old key as affected, and the mapped-keys accessor must hand out a copy (callers remove entries
 while iterating).
+
+Reading the code: every rule function is evaluated through H.guarded_views -- on the source as
+written and on behaviour-preserving normal forms of it (see _h_C.py / _h_C_norm.py) -- and slots
+are filled by role (flow origins, guard atoms, return cases, conditions as boolean formulas),
+not by statement shape or local names.
 """
 import ast
 from ..fn import World
